@@ -14,4 +14,23 @@ for prop in C12 C07 C09 C19 C10; do
     if [ "$a" != "$b" ] || [ "$a" != "$c" ]; then echo "NONDETERMINISTIC prop=$prop seed=$seed"; fail=1; else echo "ok prop=$prop seed=$seed units=$n digest=${a:0:16}"; fi
   done
 done
+# whole-run determinism: the same seed at two worker counts must explore exactly the same
+# cases, schedules and outcome states and count exactly the same events
+mkdir -p /verif/target/selftest
+for prop in C12 C07 C09 C10 C19; do
+  n=400; [ "$prop" = C09 ] && n=40; [ "$prop" = C19 ] && n=30; [ "$prop" = C10 ] && n=60
+  for w in 16 5; do
+    $SIM run --prop $prop --tier quick --units $n --workers $w --checkpoint 1 --seed 424242 --evidence-dir /verif/target/selftest/w$w >/dev/null 2>&1
+  done
+  a=$(python3 - <<PY
+import json
+def load(w):
+    c=json.load(open('/verif/target/selftest/w%d/$prop.json'%w))['coverage']
+    return json.dumps({k:c[k] for k in ('evaluations','distinct_nontrivial','distinct_delivery_schedules','distinct_outcome_states','counters','units')},sort_keys=True)
+print('same' if load(16)==load(5) else 'DIFFERENT')
+PY
+)
+  if [ "$a" = same ]; then echo "ok whole-run prop=$prop workers=16 vs 5"; else echo "NONDETERMINISTIC whole-run prop=$prop"; fail=1; fi
+done
+rm -rf /verif/target/selftest
 exit $fail
